@@ -296,6 +296,25 @@ where
                     "new" => cs.rcu(|_cur| Some(VPtr::new())),
                     "null" => cs.rcu(|_cur| None::<VPtr>),
                     "same" => cs.rcu(|cur| T::clone(cur)),
+                    m if m.starts_with("panic") => {
+                        // the closure allocates on attempts < k and panics on attempt k (C18)
+                        let k: usize = m[5..].parse().unwrap();
+                        let attempt = std::cell::Cell::new(0usize);
+                        let r = std::panic::catch_unwind(std::panic::AssertUnwindSafe(|| {
+                            cs.rcu(|_cur| {
+                                let a = attempt.get();
+                                attempt.set(a + 1);
+                                if a == k {
+                                    panic!("harness: expected user panic in the rcu closure");
+                                }
+                                Some(VPtr::new())
+                            })
+                        }));
+                        match r {
+                            Ok(v) => v,
+                            Err(_) => return "P".into(),
+                        }
+                    }
                     _ => panic!("harness: rcu mode"),
                 };
                 let a = addr_of(&old);
@@ -547,6 +566,9 @@ where
             .location()
             .map(|l| format!("{}:{}", l.file(), l.line()))
             .unwrap_or_default();
+        if msg.starts_with("harness: expected user panic") {
+            return;
+        }
         if rt::vtid().is_some() {
             log_line(format!(". PANIC {}", canonical_panic(&msg, &loc)));
             dump_and_exit(4);
